@@ -139,6 +139,13 @@ theorem retry_after_delay (cfg : Cfg) (h : List Input) (hc : (run cfg h).1.comm 
   simp only at hc ha; subst hc; subst ha
   cases cn <;> simp [step, perform_eq, allowed, leaveEffects_eq, enterEffects_eq, sendS1F13]
 
+/-- "after the *configured* establish-communications delay": durations are not part of the model; what is generated from the
+source is that the configured values reach the timers unaltered — the settings take them with a plain `kwargs.get(name, default)`
+(0 is a value, the default is 10 s) and the timer handlers read the setting when the state is entered -/
+theorem configured_durations_taken :
+    Gen.Callbacks.establishDelayPlainGet = true ∧ Gen.Callbacks.establishDelayDefault = 10 ∧
+    Gen.Callbacks.timeoutsPlainGet = true ∧ Gen.Callbacks.timersReadSettings = true := by decide
+
 /-- non-vacuity: WAIT_CRA and WAIT_DELAY are reachable with the link up -/
 example : (run {} [.enable, .linkSelected]).1.comm = .waitCra ∧ (run {} [.enable, .linkSelected]).1.selected = true := by decide +kernel
 /-- … and a connected but not selected endpoint in WAIT_DELAY writes its S1F13 at once; with no connection it is the first frame of the next one -/
